@@ -10,41 +10,50 @@ package secp256k1
 //@   inv e4(self.m) < N
 //@
 //@ func (*Scalar).Zero
+//@   ct
 //@   props C02 C18
 //@   ensures val(s) == 0 && result == s
 //@   modifies s.m
 //@
 //@ func (*Scalar).One
+//@   ct
 //@   props C02 C18
 //@   ensures val(s) == 1 && result == s
 //@   modifies s.m
 //@
 //@ func (*Scalar).Add
+//@   ct
 //@   props C02 C18
 //@   ensures val(s) == old(val(a)) + old(val(b)) && result == s
 //@   modifies s.m
 //@
 //@ func (*Scalar).Subtract
+//@   ct
 //@   props C02 C18
 //@   ensures val(s) == old(val(a)) - old(val(b)) && result == s
 //@   modifies s.m
 //@
 //@ func (*Scalar).Negate
+//@   ct
 //@   props C02 C18
 //@   ensures val(s) == -old(val(a)) && result == s
 //@   modifies s.m
 //@
 //@ func (*Scalar).Multiply
+//@   ct
 //@   props C02 C18
 //@   ensures val(s) == old(val(a)) * old(val(b)) && result == s
 //@   modifies s.m
 //@
 //@ func (*Scalar).Square
+//@   ct
 //@   props C02 C18
 //@   ensures val(s) == old(val(a)) * old(val(a)) && result == s
 //@   modifies s.m
 //@
 //@ func (*Scalar).pow2k
+//@   public k
+//@   ct
 //@   props C02
 //@   panics k == 0
 //@   ensures val(s) == pow(old(val(a)), pow2(k)) && result == s
@@ -54,6 +63,7 @@ package secp256k1
 //@   modifies s.m
 //@
 //@ func (*Scalar).Sum
+//@   ct
 //@   props C02 C18
 //@   ensures val(s) == old(vsum(vec, len(vec))) && result == s
 //@   loop 0 invariant 0 - 1 <= rangeindex && rangeindex + 1 <= len(vec) && val(sum) == vsum(vec, rangeindex + 1)
@@ -61,6 +71,7 @@ package secp256k1
 //@   modifies s.m
 //@
 //@ func (*Scalar).Product
+//@   ct
 //@   props C02 C18
 //@   ensures val(s) == old(vprod(vec, len(vec))) && result == s
 //@   loop 0 invariant 0 - 1 <= rangeindex && rangeindex + 1 <= len(vec) && val(product) == vprod(vec, rangeindex + 1)
@@ -68,17 +79,21 @@ package secp256k1
 //@   modifies s.m
 //@
 //@ func (*Scalar).Set
+//@   ct
 //@   props C02 C18
 //@   ensures val(s) == old(val(a)) && same(s.m, old(a.m)) && result == s
 //@   modifies s.m
 //@
 //@ func (*Scalar).SetBytes
+//@   ct
 //@   props C02 C18
 //@   ensures val(s) == fn(os2ip(src)) && result0 == s
 //@   ensures result1 == ite(os2ip(src) >= N, 1, 0)
 //@   modifies s.m
 //@
 //@ func (*Scalar).SetCanonicalBytes
+//@   ct
+//@   declassify call reduceSaturated: rejecting a non-canonical encoding reveals only that the input was not a valid scalar
 //@   props C02 C18
 //@   split case os2ip(src) < N
 //@   ensures os2ip(src) < N ==> result0 == s && result1 == nil && val(s) == fn(os2ip(src))
@@ -86,63 +101,76 @@ package secp256k1
 //@   modifies s.m
 //@
 //@ func (*Scalar).getBytes
+//@   ct
 //@   props C02
 //@   ensures os2ip(dst) == lift(old(val(s)))
 //@   ensures result == dst[0:32]
 //@   modifies dst
 //@
 //@ func (*Scalar).Bytes
+//@   ct
 //@   props C02 C18
 //@   ensures len(result) == 32 && os2ip(result) == lift(val(s))
 //@   fresh result
 //@
 //@ func (*Scalar).ConditionalSelect
+//@   ct
 //@   props C02 C17 C18
 //@   ensures val(s) == ite(ctrl == 0, old(val(a)), old(val(b))) && result == s
 //@   modifies s.m
 //@
 //@ func (*Scalar).ConditionalNegate
+//@   ct
 //@   props C02 C17 C18
 //@   ensures val(s) == ite(ctrl == 0, old(val(a)), -old(val(a))) && result == s
 //@   modifies s.m
 //@
 //@ func (*Scalar).Equal
+//@   ct
 //@   props C02 C17
 //@   ensures result == ite(val(s) == val(a), 1, 0)
 //@   using fm_inj_N(e4(s.m), e4(a.m))
 //@
 //@ func (*Scalar).IsZero
+//@   ct
 //@   props C02 C17
 //@   ensures result == ite(val(s) == 0, 1, 0)
 //@   using fm_zero_N(e4(s.m))
 //@
 //@ func (*Scalar).IsGreaterThanHalfN
+//@   ct
 //@   props C02 C04 C17
 //@   ensures result == ite(lift(val(s)) > HALFN, 1, 0)
 //@
 //@ func (*Scalar).uncheckedSetSaturated
+//@   ct
 //@   props C02
 //@   requires e4(a) < N
 //@   ensures val(s) == fn(old(e4(a))) && result == s
 //@   modifies s.m
 //@
 //@ func NewScalarFrom
+//@   ct
 //@   props C02 C18
 //@   ensures val(result) == val(other)
 //@   fresh result
 //@
 //@ func NewScalarFromUint64
+//@   ct
 //@   props C02
 //@   ensures val(result) == fn(l0)
 //@   fresh result
 //@
 //@ func NewScalarFromBytes
+//@   ct
 //@   props C02 C18
 //@   ensures val(result0) == fn(os2ip(src))
 //@   ensures result1 == ite(os2ip(src) >= N, 1, 0)
 //@   fresh result0
 //@
 //@ func NewScalarFromCanonicalBytes
+//@   ct
+//@   declassify call SetCanonicalBytes: validity of the encoding (see SetCanonicalBytes)
 //@   props C02 C18
 //@   split case os2ip(src) < N
 //@   ensures os2ip(src) < N ==> result1 == nil && val(result0) == fn(os2ip(src))
@@ -150,20 +178,24 @@ package secp256k1
 //@   fresh result0
 //@
 //@ func reduceSaturated
+//@   ct
 //@   props C02
 //@   ensures result == ite(old(e4(src)) >= N, 1, 0)
 //@   ensures e4(dst) == old(e4(src)) - ite(old(e4(src)) >= N, N, 0)
 //@   modifies dst
 //@
 //@ func (*Scalar).Invert
+//@   ct
 //@   props C02
 //@   ensures val(z) == pow(old(val(x)), N-2) && result == z
 //@   modifies z.m
 //@
 //@ type Point
+//@   public isValid
 //@   inv self.isValid ==> oncurve(val(self.x), val(self.y), val(self.z))
 //@
 //@ func (*Point).addComplete
+//@   ct
 //@   weak v, p, q
 //@   props C03 C04 C16
 //@   proves val(v.x) == rcb_add_x(old(val(p.x)), old(val(p.y)), old(val(p.z)), old(val(q.x)), old(val(q.y)), old(val(q.z)))
@@ -175,6 +207,7 @@ package secp256k1
 //@   modifies v.x, v.y, v.z
 //@
 //@ func (*Point).addMixed
+//@   ct
 //@   weak v, p
 //@   props C03 C05
 //@   proves val(v.x) == rcb_add_x(old(val(p.x)), old(val(p.y)), old(val(p.z)), old(val(x2)), old(val(y2)), 1)
@@ -187,6 +220,7 @@ package secp256k1
 //@   modifies v.x, v.y, v.z
 //@
 //@ func (*Point).doubleComplete
+//@   ct
 //@   weak v, p
 //@   props C03 C04 C16
 //@   proves val(v.x) == rcb_dbl_x(old(val(p.x)), old(val(p.y)), old(val(p.z)))
@@ -198,6 +232,7 @@ package secp256k1
 //@   modifies v.x, v.y, v.z
 //@
 //@ func (*Point).Identity
+//@   ct
 //@   props C03 C18
 //@   weak v
 //@   ensures v.isValid && val(v.x) == 0 && val(v.y) == 1 && val(v.z) == 0 && abs(v) == O && onc(v) && result == v
@@ -205,6 +240,7 @@ package secp256k1
 //@   modifies *v
 //@
 //@ func (*Point).Generator
+//@   ct
 //@   props C03 C18
 //@   weak v
 //@   ensures v.isValid && val(v.x) == GX && val(v.y) == GY && val(v.z) == 1 && abs(v) == G && onc(v) && result == v
@@ -213,24 +249,28 @@ package secp256k1
 //@   modifies *v
 //@
 //@ func (*Point).Add
+//@   ct
 //@   props C03 C18
 //@   panics !p.isValid || !q.isValid
 //@   ensures v.isValid && abs(v) == padd(old(abs(p)), old(abs(q))) && result == v
 //@   modifies *v
 //@
 //@ func (*Point).Double
+//@   ct
 //@   props C03 C18
 //@   panics !p.isValid
 //@   ensures v.isValid && abs(v) == smul(2, old(abs(p))) && result == v
 //@   modifies *v
 //@
 //@ func (*Point).Subtract
+//@   ct
 //@   props C03 C18
 //@   panics !p.isValid || !q.isValid
 //@   ensures v.isValid && abs(v) == padd(old(abs(p)), pneg(old(abs(q)))) && result == v
 //@   modifies *v
 //@
 //@ func (*Point).Negate
+//@   ct
 //@   props C03 C18
 //@   panics !p.isValid
 //@   ensures v.isValid && abs(v) == pneg(old(abs(p))) && result == v
@@ -238,6 +278,7 @@ package secp256k1
 //@   modifies *v
 //@
 //@ func (*Point).ConditionalNegate
+//@   ct
 //@   props C03 C17 C18
 //@   panics !p.isValid
 //@   ensures v.isValid && abs(v) == ite(ctrl == 0, old(abs(p)), pneg(old(abs(p)))) && result == v
@@ -245,6 +286,7 @@ package secp256k1
 //@   modifies *v
 //@
 //@ func (*Point).uncheckedConditionalSelect
+//@   ct
 //@   props C03 C17 C18
 //@   weak v, a, b
 //@   ensures val(v.x) == ite(ctrl == 0, old(val(a.x)), old(val(b.x)))
@@ -254,6 +296,7 @@ package secp256k1
 //@   modifies v.x, v.y, v.z
 //@
 //@ func (*Point).ConditionalSelect
+//@   ct
 //@   props C03 C17 C18
 //@   weak a, b
 //@   requires ctrl == 0 ==> onc(a)
@@ -266,18 +309,21 @@ package secp256k1
 //@   modifies *v
 //@
 //@ func (*Point).Equal
+//@   ct
 //@   props C03 C17
 //@   panics !v.isValid || !p.isValid
 //@   ensures result == ite(abs(v) == abs(p), 1, 0)
 //@   using pt_equal(val(v.x), val(v.y), val(v.z), val(p.x), val(p.y), val(p.z))
 //@
 //@ func (*Point).IsIdentity
+//@   ct
 //@   props C03 C17
 //@   panics !v.isValid
 //@   ensures result == ite(abs(v) == O, 1, 0)
 //@   using pt_infinity(val(v.x), val(v.y), val(v.z))
 //@
 //@ func (*Point).rescale
+//@   ct
 //@   props C03 C06
 //@   panics !p.isValid
 //@   ensures v.isValid && abs(v) == old(abs(p)) && result == v
@@ -289,11 +335,13 @@ package secp256k1
 //@   modifies *v
 //@
 //@ func (*Point).IsYOdd
+//@   ct
 //@   props C03 C17
 //@   panics !v.isValid
 //@   ensures result == ite(abs(v) == O, 1, lift(affy(abs(v))) % 2)
 //@
 //@ func (*Point).Set
+//@   ct
 //@   props C03 C18
 //@   panics !p.isValid
 //@   ensures v.isValid && abs(v) == old(abs(p)) && result == v
@@ -301,28 +349,33 @@ package secp256k1
 //@   modifies *v
 //@
 //@ func NewGeneratorPoint
+//@   ct
 //@   props C03 C18
 //@   ensures result.isValid && abs(result) == G
 //@   fresh result
 //@
 //@ func NewIdentityPoint
+//@   ct
 //@   props C03 C18
 //@   ensures result.isValid && abs(result) == O && val(result.x) == 0 && val(result.y) == 1 && val(result.z) == 0
 //@   using pt_identity()
 //@   fresh result
 //@
 //@ func NewPointFrom
+//@   ct
 //@   props C03 C18
 //@   panics !p.isValid
 //@   ensures result.isValid && abs(result) == abs(p)
 //@   fresh result
 //@
 //@ func maybeYY
+//@   ct
 //@   props C06
 //@   ensures val(result) == val(x)*val(x)*val(x) + 7
 //@   fresh result
 //@
 //@ func xyOnCurve
+//@   ct
 //@   props C06
 //@   ensures result == ite(onaff(val(x), val(y)), 1, 0)
 //@
@@ -337,6 +390,8 @@ package secp256k1
 //@   fresh result0
 //@
 //@ func (*Point).getUncompressedBytes
+//@   ct
+//@   declassify call IsIdentity: whether the point is the identity is revealed by the length of the encoding (it is the published output)
 //@   props C06
 //@   panics !v.isValid
 //@   ensures result == dst[0:ite(abs(v) == O, 1, 65)]
@@ -345,6 +400,7 @@ package secp256k1
 //@   modifies dst
 //@
 //@ func (*Point).UncompressedBytes
+//@   ct
 //@   props C06 C18
 //@   panics !v.isValid
 //@   split case abs(v) == O
@@ -353,6 +409,8 @@ package secp256k1
 //@   fresh result
 //@
 //@ func (*Point).getCompressedBytes
+//@   ct
+//@   declassify call IsIdentity: whether the point is the identity is revealed by the length of the encoding (it is the published output)
 //@   props C06
 //@   panics !v.isValid
 //@   ensures result == dst[0:ite(abs(v) == O, 1, 33)]
@@ -361,6 +419,7 @@ package secp256k1
 //@   modifies dst
 //@
 //@ func (*Point).CompressedBytes
+//@   ct
 //@   props C06 C18
 //@   panics !v.isValid
 //@   split case abs(v) == O
@@ -369,12 +428,15 @@ package secp256k1
 //@   fresh result
 //@
 //@ func (*Point).getXBytes
+//@   ct
 //@   props C06
 //@   requires v.isValid && abs(v) != O
 //@   ensures result1 == nil && len(result0) == 32 && os2ip(dst) == lift(affx(abs(v))) && result0 == dst[0:32]
 //@   modifies dst
 //@
 //@ func (*Point).XBytes
+//@   ct
+//@   declassify call IsIdentity: whether the point is the identity is revealed by the length of the encoding (it is the published output)
 //@   props C06 C18
 //@   panics !v.isValid
 //@   split case abs(v) == O
@@ -383,6 +445,7 @@ package secp256k1
 //@   fresh result0
 //@
 //@ func SplitUncompressedPoint
+//@   ct
 //@   props C06
 //@   panics len(ptBytes) != 65
 //@   ensures result0 == ptBytes[1:33] && result1 == ptBytes[64] % 2
@@ -442,6 +505,7 @@ package secp256k1
 //@   fresh result0
 //@
 //@ func (*Point).ScalarMult
+//@   ct
 //@   props C04 C10 C17 C18
 //@   timeout 40
 //@   assert bounds@k2Bytes#2: lift(val(k1)) < T128 && lift(val(k2)) < T128
@@ -462,6 +526,7 @@ package secp256k1
 //@   modifies *v
 //@
 //@ func (*Point).ScalarBaseMult
+//@   ct
 //@   props C05 C08 C10 C17 C18
 //@   timeout 40
 //@   ensures v.isValid && abs(v) == smul(old(val(s)), G) && result == v
@@ -493,6 +558,7 @@ package secp256k1
 //@   fresh result0
 //@
 //@ func lookupProjectivePoint
+//@   ct
 //@   props C04 C17 C19
 //@   weak tbl, out
 //@   requires idx <= 15
@@ -500,11 +566,13 @@ package secp256k1
 //@   modifies *out
 //@
 //@ func newProjectivePointMultTable
+//@   ct
 //@   props C04 C16
 //@   panics !p.isValid
 //@   ensures tblok(result) && fact(abs(result[0]) == abs(p))
 //@
 //@ func (*projectivePointMultTable).SelectAndAdd
+//@   ct
 //@   props C04 C16 C17
 //@   weak tbl, sum
 //@   split value idx in 0..15
@@ -521,6 +589,7 @@ package secp256k1
 //@   modifies sum.x, sum.y, sum.z
 //@
 //@ func (*Scalar).mulGFlooredDiv
+//@   ct
 //@   props C04
 //@   noalias k, g
 //@   ensures lift(val(s)) == (lift(old(val(k))) * lift(old(val(g))) + T383) / T384 && result == s
@@ -528,6 +597,7 @@ package secp256k1
 //@   modifies s.m
 //@
 //@ func (*Scalar).splitGLV
+//@   ct
 //@   props C04
 //@   ensures val(result0) + val(result1)*LAMBDA == val(s)
 //@   ensures 0 - T128 < slift(val(result0)) && slift(val(result0)) < T128
@@ -536,6 +606,7 @@ package secp256k1
 //@   fresh result0, result1
 //@
 //@ func (*Point).mulBeta
+//@   ct
 //@   props C04
 //@   panics !p.isValid
 //@   ensures v.isValid && abs(v) == smul(LAMBDA, old(abs(p))) && result == v
@@ -543,18 +614,21 @@ package secp256k1
 //@   modifies *v
 //@
 //@ func newMulBeta
+//@   ct
 //@   props C04
 //@   panics !p.isValid
 //@   ensures result.isValid && abs(result) == smul(LAMBDA, abs(p))
 //@   fresh result
 //@
 //@ func lookupAffinePoint
+//@   ct
 //@   props C05 C17 C19
 //@   requires idx <= 15 && val(out.x) == 0 && val(out.y) == 0
 //@   ensures val(out.x) == tselx(tbl, idx, 0) && val(out.y) == tsely(tbl, idx, 0)
 //@   modifies *out
 //@
 //@ func (*affinePointMultTable).SelectAndAdd
+//@   ct
 //@   props C05 C17
 //@   weak sum
 //@   split value idx in 0..15
@@ -571,6 +645,7 @@ package secp256k1
 //@   modifies sum.x, sum.y, sum.z
 //@
 //@ func (*Point).MultiScalarMult
+//@   ct
 //@   props C16 C18
 //@   timeout 60
 //@   bounded len(scalars) <= 3: list lengths 0..3 are verified (all scalars and valid points; list entries distinct objects, the receiver may be one of the points); longer lists are not covered by this contract
